@@ -150,27 +150,6 @@ Proof.
   apply filter_In in Hy as [Hy _]. apply in_map_iff. exists y. auto.
 Qed.
 
-(* the keys the fresh linker made inside BaseLinker.copy ends up with *)
-Definition linker_fresh_keys (K : consts) (h : heap) (r : loc) : list Z :=
-  match nth_error h r with
-  | Some o =>
-    match okind o, cell_get KP (ocells o) with
-    | KCont c, Some (VR d) =>
-      match nth_error h d with
-      | Some od =>
-        match copy_submodels K h (ocells od) with
-        | Some (h1, cs') =>
-          let h2 := h1 ++ [mkObj KDict cs'] in
-          let i := init_M h2 c K (linker_iargs h2 K (length h1) (k_linker_name K)) in
-          match nth_error (fst (fst i)) (snd (fst i)) with
-          | Some o' => map fst (ocells o')
-          | None => [] end
-        | None => [] end
-      | None => [] end
-    | _, _ => [] end
-  | None => []
-  end.
-
 Lemma linker_iargs_safe h K d nme : src_safe KP (ia_span (linker_iargs h K d nme)) = true.
 Proof.
   unfold linker_iargs. destruct (nth_error h d) as [od|]; [|reflexivity].
@@ -187,24 +166,22 @@ Proof.
 Qed.
 
 (* linker_copy_observationally_equal.  Hypotheses: the original's __dict__ has no duplicate keys; `submodels` is a dict;
-   every submodel satisfies the hypotheses of copy_sim in the heap in which it is copied; every key a FRESH linker of the class
-   gets is a key of the original *)
+   every submodel's __dict__ has no duplicate keys (in the heap in which it is copied).  Nothing about the class (fix eb971db) *)
 Theorem linker_copy_sim K h r h' r' o d od :
   linker_copy_M K h r = Some (h', r') -> wf h -> nth_error h r = Some o ->
   cell_get KP (ocells o) = Some (VR d) -> nth_error h d = Some od -> okind od = KDict ->
   NoDup (map fst (ocells o)) ->
   submodels_copyable_seq K h (ocells od) ->
-  (forall k, In k (linker_fresh_keys K h r) -> In k (map fst (ocells o))) ->
   (exists o', nth_error h' r' = Some o' /\ okind o' = okind o) /\ forall n, sim n h' (VR r) (VR r').
 Proof.
-  intros H W Ho Hsub Hd Kod ND SC FK. unfold linker_copy_M in H. unfold linker_fresh_keys in FK.
-  fold KP in H. rewrite Ho in H, FK. rewrite Hsub in H, FK.
+  intros H W Ho Hsub Hd Kod ND SC. unfold linker_copy_M in H.
+  fold KP in H. rewrite Ho in H. rewrite Hsub in H.
   destruct (okind o) as [| | | |c|] eqn:Kd; try discriminate.
-  rewrite Hd in H, FK.
+  rewrite Hd in H.
   destruct (copy_submodels K h (ocells od)) as [[h1 cs']|] eqn:Cs; [|discriminate].
   set (h2 := h1 ++ [mkObj KDict cs']) in *.
   destruct (init_M h2 c K (linker_iargs h2 K (length h1) (k_linker_name K))) as [[h3 r3] ok] eqn:I.
-  cbn [fst snd] in H, FK. destruct ok; [|discriminate].
+  cbn [fst snd] in H. destruct ok; [|discriminate].
   destruct (dc_entries_pol (k_single_memo K) h3 (filter (fun kv => negb (fst kv =? KP)) (ocells o))) as [[h4 es]|] eqn:E; [|discriminate].
   destruct (nth_error h4 r3) as [o'|] eqn:Eo'; [|discriminate].
   inversion H; subst r'; clear H.
@@ -239,7 +216,7 @@ Proof.
   assert (Eo3 : o' = o3).
   { rewrite (ext_nth _ _ _ X4) in Eo' by lia. rewrite Ho3 in Eo'. inversion Eo'; reflexivity. }
   subst o'.
-  set (X := mkObj (okind o3) (dict_update (ocells o3) es)).
+  set (X := mkObj (okind o3) (keep_keys (ocells o) (dict_update (ocells o3) es))).
   set (hf := set_obj h4 (length h2) X).
   (* everything below length h2 is, in the final heap, what it was in h2; below N what it was in h *)
   assert (Old2 : forall x, (x < length h2)%nat -> nth_error hf x = nth_error h2 x).
@@ -261,10 +238,12 @@ Proof.
       unfold refs in *. cbn [ocells] in Hl. apply in_flat_map in Hl as (cx & Hc & Hl). apply filter_In in Hc as [Hc _].
       apply in_flat_map. exists cx. auto. }
     pose proof (dc_entries_pol_sim _ _ _ _ _ E W3 Bo) as Sim.
-    intros k. unfold X. cbn [ocells]. rewrite (cell_get_dict_update _ _ _ NDf).
+    intros k. unfold X. cbn [ocells]. rewrite cell_get_keep_keys. unfold has_key.
+    destruct (cell_get k (ocells o)) as [wk|] eqn:Gk; [|exact Logic.I].
+    rewrite (cell_get_dict_update _ _ _ NDf).
     destruct (Z.eq_dec k KP) as [->|Nk].
     + (* the submodels dict *)
-      rewrite Hsub.
+      rewrite Hsub in Gk. inversion Gk; subst wk.
       assert (G0 : cell_get KP es = None).
       { apply cell_get_notin_none. rewrite Keys. apply cell_get_none_notin. apply cell_get_filter_eq. }
       rewrite G0, Kp3.
@@ -279,7 +258,8 @@ Proof.
       split; [exact Hk|]. apply (sim_agree n h1 hf _ _ Old1). apply Hs.
     + (* every other entry: its own deep copy *)
       pose proof (cells_sim_get _ _ _ k Sim) as G. rewrite (cell_get_filter_ne KP k _ Nk) in G.
-      destruct (cell_get k (ocells o)) as [w|] eqn:G1; destruct (cell_get k es) as [w'|] eqn:G2; try contradiction.
+      rewrite Gk in G. rename wk into w. pose proof Gk as G1.
+      destruct (cell_get k es) as [w'|] eqn:G2; try contradiction.
       * unfold hf. apply sim_upd_irrelevant; auto.
         -- intros l Hl. assert (l < N)%nat; [|lia].
            destruct w as [z|rw]; simpl in Hl; [tauto|].
@@ -294,7 +274,4 @@ Proof.
            assert (Vw : val_ok (length h3) h4 (VR rw)).
            { unfold cells_ok in K4. rewrite Forall_forall in K4. apply (K4 (k, VR rw)). eapply cell_get_in; eauto. }
            simpl in Vw. eapply closed_above_reach; [exact C4 | | exact Hl]. lia.
-      * destruct (cell_get k (ocells o3)) as [w0|] eqn:G0; auto.
-        apply cell_get_none_notin in G1. apply G1. apply FK.
-        rewrite Ho3. apply in_map_iff. exists (k, w0). split; auto. eapply cell_get_in; eauto.
 Qed.
